@@ -229,10 +229,26 @@ def run(ctx, drv):
         if isinstance(r, str):
             ctx.fail("add-raises", inp, r, "the archive after the same add calls", "core.AdaptiveGridArchive / core.Archive.__iadd__ / extend / append")
             continue
-        a_ids, b_ids = [sols.index(m) for m in ref], [sols.index(m) for m in other]
-        if a_ids != b_ids or len(b_ids) > capacity or list(other.density) != list(ref.density) or list(other.minimum) != list(ref.minimum) or list(other.maximum) != list(ref.maximum):
-            ctx.fail("entry-point-is-not-repeated-add", inp, {"members": b_ids, "density": [int(d) for d in other.density]},
-                     {"members": a_ids, "density": [int(d) for d in ref.density]}, "core.Archive.__iadd__ / extend / append on AdaptiveGridArchive")
+        a_ids, b_ids = [[i for i, x in enumerate(sols) if x is m][0] for m in ref], [[i for i, x in enumerate(sols) if x is m][0] for m in other]
+        # what the statement says about the archive after this insertion history, whatever order the entry point offers its items in:
+        where_ = "core.Archive.__iadd__ / extend / append on AdaptiveGridArchive"
+        dom_ = lambda y, x: plat.better(False, dirs, list(y.objectives), 0.0, list(x.objectives), 0.0)
+        mem_ = list(other)
+        if len(mem_) > capacity:
+            ctx.fail("capacity-exceeded", inp, len(mem_), f"<= {capacity}", where_)
+        elif any(dom_(y, x) for x in mem_ for y in mem_ if x is not y):
+            ctx.fail("members-not-mutually-nondominated", inp, b_ids, "mutually non-dominated members", where_)
+        elif not check_density(ctx, other, inp, where=where_):
+            pass
+        elif len(sols) <= capacity:
+            # nothing overflows: every offered solution that no other offered solution dominates is a member (clones included)
+            want = [i for i, x in enumerate(sols) if not any(dom_(y, x) for y in sols)]
+            if sorted(b_ids) != want:
+                ctx.fail("non-dominated-newcomer-that-fits-not-added", inp, sorted(b_ids), want, where_)
+        # and, as a model of these entry points: the same as offering the items one by one, in order
+        if a_ids != b_ids or list(other.density) != list(ref.density) or list(other.minimum) != list(ref.minimum) or list(other.maximum) != list(ref.maximum):
+            ctx.disagree("+= / extend / append on a grid archive = repeated add in order (members, bounds, density)", inp,
+                         {"members": b_ids, "density": [int(d) for d in other.density]}, {"members": a_ids, "density": [int(d) for d in ref.density]})
         ctx.case(("entry", how, tuple(map(tuple, pts)), capacity, divisions), len(sols) > capacity)
     ctx.count("entry_point_histories", 250 if ctx.quick() else 4000)
 
